@@ -427,7 +427,7 @@ PROPS = {
     "C10": {
         "level": "proof",
         "level_prefix": "Partial proof -- contracts discharged without bound on the mechanisms named below, not the whole statement (bounded stand-ins and what is left out are listed): ",
-        "units": ["xfr"],
+        "units": ["xfr", "xfrsize"],
         "vx_search": {"bin": "c10_search_small_streams", "crate": "replay_net", "release": True,
                       "what": "about 78000 response streams of at most 6 records over {SOA 1, SOA 2, SOA 3, A .1, A .2}, as AXFR and IXFR, in one "
                               "and in two messages, through the real XfrResponseInterpreter, compared with the stream automaton of the unit's "
@@ -454,7 +454,7 @@ PROPS = {
             {"bin": "d51_zone_diff_ttl", "crate": "replay_net", "finding": "D51"},
             {"bin": "d52_zone_diff_remove_all", "crate": "replay_net", "finding": "D52", "expect": "fail"},
         ],
-        "explanation": "XfrZoneUpdateIterator::next (unit xfr, real text): the records of a message go through the processor one by one and in order (the processor state afterwards is the fold `run` of the RFC 5936 / RFC 1995 step function over exactly the records consumed), what is yielded for a record is what process_record said -- DeleteAllRecords first, the record's own update held for the next call --, a parse error or a rejected record ends the call with that error, the call terminates, and the retry-over-TCP signal is given only for an unfinished IXFR whose stream so far is one record. contracts on the transfer-stream state machine (real text of net/xfr/protocol/interpreter.rs, message and record "
+        "explanation": "XfrMiddlewareSvc::calc_msg_bytes_available (unit xfrsize, real text with the real constants): what the XFR batcher may fill plus what later layers have reserved on the request (the TSIG record of a signed transfer, the OPT record) is exactly the size limit of the transport -- the hint of the UDP context, 512 without one, 65535 on a stream -- so a message filled to the brim still takes its TSIG record (seed C10-12). XfrZoneUpdateIterator::next (unit xfr, real text): the records of a message go through the processor one by one and in order (the processor state afterwards is the fold `run` of the RFC 5936 / RFC 1995 step function over exactly the records consumed), what is yielded for a record is what process_record said -- DeleteAllRecords first, the record's own update held for the next call --, a parse error or a rejected record ends the call with that error, the call terminates, and the retry-over-TCP signal is given only for an unfinished IXFR whose stream so far is one record. contracts on the transfer-stream state machine (real text of net/xfr/protocol/interpreter.rs, message and record "
                        "types reduced to prelude models): XfrResponseInterpreter::check_response accepts exactly the RFC 5936 section "
                        "2.2.1 header predicate; Inner::new is total (no unreachable!()) and starts the processor in the right mode; "
                        "RecordProcessor::process_record equals one step of the RFC 5936/1995 stream automaton xfr_step (opening SOA "
@@ -523,7 +523,7 @@ PROPS = {
     "C16": {
         "level": "proof",
         "level_prefix": "Partial proof -- contracts discharged without bound on the mechanism named below, not the whole statement (what is left out is listed): ",
-        "units": ["ednsneg", "starterr"],
+        "units": ["ednsneg", "starterr", "xfrsize"],
         "kani": [],
         "extra_searches": [
             {"bin": "c16_search_udp_sizes", "crate": "replay_srv", "release": True,
@@ -536,7 +536,7 @@ PROPS = {
                      "answer to A is held back or not, the rest of B after A's response, then request C -- every request answered exactly once with its own ID and question, framing intact (bounded exploration; "
                      "harness after a round-11 seeding sub-agent's demonstration program; decides seed C16-1, a receive future that is not cancel-safe dropped by a tidied-up select!)"},
         ],
-        "explanation": "The size clause of the statement, at the place where the limit is decided. EdnsMiddlewareSvc::preprocess (net/server/middleware/edns.rs, the whole 170-line function, real text): for every request, "
+        "explanation": "XfrMiddlewareSvc::calc_msg_bytes_available (unit xfrsize, real text with the real constants): what the XFR batcher may fill plus what later layers have reserved on the request (the TSIG record of a signed transfer, the OPT record) is exactly the size limit of the transport -- the hint of the UDP context, 512 without one, 65535 on a stream -- so a message filled to the brim still takes its TSIG record (seed C10-12). The size clause of the statement, at the place where the limit is decided. EdnsMiddlewareSvc::preprocess (net/server/middleware/edns.rs, the whole 170-line function, real text): for every request, "
                        "exactly the requests RFC 6891 6.1.1 / 6.1.3 and RFC 7828 3.2.1 name are broken off -- more than one OPT record, an OPT record that does not parse, a keep-alive option with a timeout over TCP: FORMERR; "
                        "an EDNS version above 0: BADVERS -- and no other; for a UDP request with a usable OPT record the limit installed in the transport context (which the mandatory middleware truncates to) is at least 512, "
                        "at most the requestor's advertised payload size with values below 512 counted as 512, and, if the server was configured with a limit, at most that limit (not under 512). The property is the "
